@@ -633,6 +633,10 @@ func (g *Gen) applyContract(con *Contract, c *ssa.CallCommon, in ssa.Instruction
 		g.assumptions = appendUnique(g.assumptions, "trusted contract: "+con.FullKey())
 	} else if con.IsIface {
 		g.assumptions = appendUnique(g.assumptions, "interface contract: "+con.FullKey())
+	} else if con.IsFuncType {
+		g.assumptions = appendUnique(g.assumptions, "function-type contract: "+con.FullKey())
+	} else {
+		g.assumptions = appendUnique(g.assumptions, "callee contract: "+con.FullKey())
 	}
 	return res
 }
